@@ -131,10 +131,7 @@ def run_case(case, peek=None):
             kw["on_reconnect"] = mk("on_reconnect")
         app = websocket.WebSocketApp(("wss" if case.get("secure") else "ws") + "://c13.test/app", **kw)
         # the application keeps no reference of its own to the handlers (on_message=Handler().on_message): the app object is their only owner
-        kw.clear()
-        import gc
-
-        gc.collect()
+        kw.clear()  # (reference counting frees an unowned handler at once; no collector run needed)
         rk = {"reconnect": interval} if second is not None else {}
         if case.get("external"):
             # an external (rel-style) dispatcher: run_forever returns at once and the third-party loop calls the read callback
